@@ -36,18 +36,20 @@ type Program struct {
 
 // Func is a declared function, method or function literal of a repo package.
 type Func struct {
-	progFuncs map[*types.Func]*Func     // the program's function index (set by Load)
-	idxLoops  map[types.Object]ast.Expr // index variable of a canonical index loop -> collection
-	Pkg       *packages.Package
-	Decl      *ast.FuncDecl
-	Lit       *ast.FuncLit
-	Obj       *types.Func // nil for literals
-	Outer     *Func       // enclosing function for literals
-	Name      string      // pkg.(*T).M / pkg.F / outer$N
-	Body      *ast.BlockStmt
-	Type      *ast.FuncType
-	Recv      *types.Var
-	nlits     int
+	decodePtrTargets map[types.Object]bool
+	decodeParams     map[int]bool
+	progFuncs        map[*types.Func]*Func     // the program's function index (set by Load)
+	idxLoops         map[types.Object]ast.Expr // index variable of a canonical index loop -> collection
+	Pkg              *packages.Package
+	Decl             *ast.FuncDecl
+	Lit              *ast.FuncLit
+	Obj              *types.Func // nil for literals
+	Outer            *Func       // enclosing function for literals
+	Name             string      // pkg.(*T).M / pkg.F / outer$N
+	Body             *ast.BlockStmt
+	Type             *ast.FuncType
+	Recv             *types.Var
+	nlits            int
 
 	defs          *defInfo
 	decodeTargets map[types.Object]bool
